@@ -47,6 +47,12 @@ def gen_cases(tier, seed):
                       "routers": 1 + i % 2, "retrievers": 2 + i % 3, "msgs": 12 + (i % 4) * 6})
     # controlled schedules
     scen = [("2ret_3msg", 2, 0, 3), ("2ret_1rout", 2, 1, 2), ("3ret_2msg", 3, 0, 2)]
+    # the in-memory broker at source-line granularity (what several runner threads in one process really do)
+    for name, nret, nrout, pre in [("mem_2ret_1msg", 2, 0, 1), ("mem_2ret_1rout", 2, 1, 1), ("mem_3ret_2msg", 3, 0, 2)]:
+        cases.append({"kind": "sched", "backend": "mem", "scenario": name, "retrievers": nret, "routers": nrout, "preloaded": pre, "strategy": "dfs",
+                      "p": 3 if thorough else 2, "seed": seed})
+        cases.append({"kind": "sched", "backend": "mem", "scenario": name, "retrievers": nret, "routers": nrout, "preloaded": pre, "strategy": "pct",
+                      "n": 2000 if thorough else 150, "seed": seed * 17 + 3})
     for name, nret, nrout, pre in scen:
         if thorough:
             cases.append({"kind": "sched", "scenario": name, "retrievers": nret, "routers": nrout, "preloaded": pre, "strategy": "dfs", "p": 3 if nret == 2 and nrout == 0 else 2, "seed": seed})
@@ -291,7 +297,8 @@ def run_sched(case, V, hooks, distinct):
     from vlib import sched as S, sqlhook
     nret, nrout, pre = case["retrievers"], case["routers"], case["preloaded"]
     td = TmpDir()
-    app = make_app("sqlite", td.db("s.sqlite"), app_id="c08s")
+    backend = case.get("backend", "sqlite")
+    app = make_app(backend, td.db("s.sqlite"), app_id="c08s")
     br = app.broker
 
     def scenario(sc):
@@ -342,8 +349,10 @@ def run_sched(case, V, hooks, distinct):
         return finish
 
     try:
+        from vlib import linemon
         res = S.explore(scenario, strategy=case["strategy"], max_preemptions=case.get("p", 2), n=case.get("n", 100),
-                        seed=case["seed"], sql=True, max_steps=4000)
+                        seed=case["seed"], sql=(backend == "sqlite"), lines=linemon.MEM_BROKER if backend == "mem" else None, max_steps=4000,
+                        time_budget=120)
     finally:
         td.close()
     hooks["sched_schedules"] += res["schedules"]
